@@ -23,6 +23,7 @@ mod c18;
 mod c19;
 mod c20;
 mod kin;
+mod pms;
 
 fn main() {
   let args: Vec<String> = std::env::args().collect();
@@ -55,6 +56,7 @@ fn main() {
     "c19" => c19::run(rest),
     "c20" => c20::run(rest),
     "kin" => kin::run(rest),
+    "pms" => pms::run(rest),
     other => {
       eprintln!("unknown property {}", other);
       std::process::exit(2);
